@@ -163,6 +163,37 @@ func FsChild(args []string) int {
 			fmt.Printf("%s %d %s\n", hex.EncodeToString([]byte(key)), size, res)
 		}
 		return 0
+	case "exdev":
+		// the staging directory lies on ANOTHER file system (the parent made <dir>/.temp a symlink), so the final rename
+		// fails with EXDEV; and from the moment the stream is complete the file size limit is <limit>, so that anything
+		// that tried to copy the staged file into place instead would be cut off by the OS.  One line per operation.
+		var limit, seed uint64
+		fmt.Sscan(args[2], &limit)
+		fmt.Sscan(args[3], &seed)
+		signal.Ignore(syscall.SIGXFSZ)
+		var old syscall.Rlimit
+		syscall.Getrlimit(syscall.RLIMIT_FSIZE, &old)
+		r := core.NewRand(seed, "c18-exdev")
+		for i := 0; i < 6; i++ {
+			size := int(limit) + 1 + r.Intn(3*int(limit)+5000)
+			key := fmt.Sprintf("exdev-%d-%d", seed, i)
+			content := efbigContent(seed, i, size)
+			w, commit, err := st.PutStream(ctx)
+			if err == nil {
+				_, err = w.Write(content)
+			}
+			if err == nil {
+				syscall.Setrlimit(syscall.RLIMIT_FSIZE, &syscall.Rlimit{Cur: limit, Max: old.Max})
+				err = commit(key)
+				syscall.Setrlimit(syscall.RLIMIT_FSIZE, &old)
+			}
+			res := "ok"
+			if err != nil {
+				res = "err"
+			}
+			fmt.Printf("%s %d %s\n", hex.EncodeToString([]byte(key)), size, res)
+		}
+		return 0
 	case "loop":
 		var seed uint64
 		fmt.Sscan(args[2], &seed)
@@ -556,6 +587,55 @@ func runC18(c *core.Ctx) error {
 		}
 		c.Count(caseID, true)
 		c.Dist("fault:efbig")
+	}
+	// --- (vii) staging directory on another file system: the final rename cannot be atomic there ------
+	for round := 0; round < c.Pick(3, 60); round++ {
+		shm, err := os.MkdirTemp("/dev/shm", "verif-c18-stage-")
+		if err != nil {
+			c.Dist("exdev:no-second-file-system")
+			break
+		}
+		d := newDir()
+		var s1, s2 syscall.Stat_t
+		if syscall.Stat(shm, &s1) != nil || syscall.Stat(d, &s2) != nil || s1.Dev == s2.Dev || os.Symlink(shm, filepath.Join(d, ".temp")) != nil {
+			os.RemoveAll(shm)
+			c.Dist("exdev:no-second-file-system")
+			break
+		}
+		limit := uint64(1000 + c.Rand.Intn(60000))
+		seed := c.Seed*104729 + uint64(round)
+		out, err := exec.Command(selfExe(), "fs-child", "exdev", d, fmt.Sprint(limit), fmt.Sprint(seed)).Output()
+		caseID := fmt.Sprintf("c18.exdev limit=%d seed=%d", limit, seed)
+		if err != nil {
+			os.RemoveAll(shm)
+			return fmt.Errorf("%s: child failed: %v", caseID, err)
+		}
+		st, err := newFsStore(d)
+		if err != nil {
+			os.RemoveAll(shm)
+			return err
+		}
+		for i, line := range strings.Split(strings.TrimSpace(string(out)), "\n") {
+			var kh, res string
+			var size int
+			if _, err := fmt.Sscan(line, &kh, &size, &res); err != nil {
+				os.RemoveAll(shm)
+				return fmt.Errorf("%s: bad child line %q", caseID, line)
+			}
+			kb, _ := hex.DecodeString(kh)
+			want := efbigContent(seed, i, size)
+			got, gerr := st.Get(ctx, string(kb))
+			if gerr == nil && !bytes.Equal(got, want) {
+				c.Fail("C18/partial-or-mixed-block", core.Replay{Kind: "oracle", Case: caseID, Impl: fmt.Sprintf("stream %d of %d bytes (commit reported %s): the key reads %d bytes", i, size, res, len(got)),
+					Expected: "absent, or the complete block", Detail: "the staging directory is on another file system: whatever the store does instead of the rename must not expose a partial block"})
+			} else if res == "ok" && gerr != nil {
+				c.Fail("C18/partial-or-mixed-block", core.Replay{Kind: "oracle", Case: caseID, Impl: fmt.Sprintf("commit %d reported success, the key is absent (%v)", i, gerr), Expected: "the complete block"})
+			}
+			c.Dist("exdev:" + res)
+		}
+		os.RemoveAll(shm)
+		c.Count(caseID, true)
+		c.Dist("fault:exdev")
 	}
 	// --- (iv) SIGKILL at random instants (thorough) ---------------------------------------------
 	for round := 0; round < c.Pick(3, 150); round++ {
